@@ -21,6 +21,12 @@ claim("C19",
       STATIC_NOTE + "Width table for leaf encodings and two invariant-promoted widths (RID, Paillier modulus) whose supporting checks run in the same check. Not decided: collision resistance of BLAKE3.",
       "DESIGN.md §4 C19")
 
+claim("C10",
+      "transcript-completeness rule over challenge() of all 15 proof systems (AST + types), prover/verifier sibling rule, SSA reject-guard inventory (deciding callee + statement/proof fields feeding each guard, frozen in tables/zk_guards.json) with accept-coverage by dominance, range-predicate table",
+      "Decides for every public input, proof field and context that the mechanisms binding a proof are wired: every statement/commitment field enters the Fiat-Shamir hash, both sides use the same challenge function on the caller's context, the verifier honours the challenge error, every tabled response is range-checked, and every recorded verification equation/validity guard still exists, still depends on the same fields and still dominates acceptance. Right level for the 'bound to statement and context / out-of-range rejected' clauses, which are shape facts; completeness on boundary witnesses is value-level and NOT decided.",
+      STATIC_NOTE + "tables/zk_guards.json is the reference inventory (regenerated only by a reviewed maintainer action). Not decided: soundness of the equations, completeness for boundary witnesses.",
+      "DESIGN.md §4 C10")
+
 for p, why in {
     "C01": "not built yet", "C02": "not built yet", "C03": "not built yet", "C04": "not built yet", "C05": "not built yet",
     "C06": "not built yet", "C07": "not built yet", "C08": "not built yet", "C09": "not built yet", "C10": "not built yet",
